@@ -351,6 +351,7 @@ class Run:
         self.violations = []       # list of (replay_path, no_input)
         self.distinct = set()
         self.notes = []
+        self._unlisted_reported = set()
         (BUILD / pid).mkdir(parents=True, exist_ok=True)
 
     def count(self, key, n=1):
@@ -367,7 +368,23 @@ class Run:
         if len(self.cov["samples"]) < limit:
             self.cov["samples"].append(obj)
 
-    def known(self, what: str):
+    def known(self, what: str, replay=None):
+        """Report a listed known finding.  The text must end with its tag, e.g. "... [F11]".  A finding is only
+        suppressed while the committed known-findings file lists that id for this property with status "known":
+        if it is absent or listed as fixed, the failure is reported as a VIOLATION (a fixed defect that returns,
+        or a defect nobody recorded)."""
+        tags = re.findall(r"\[(F\w+)[^\]]*\]", what)
+        listed = {f["id"] for f in load_known_findings(self.pid) if f.get("status") == "known"}
+        if tags and tags[-1] not in listed:
+            key = "unlisted:" + what
+            if key not in self._unlisted_reported:
+                self._unlisted_reported.add(key)
+                r = {"kind": "finding_not_listed_as_known", "what": what,
+                     "note": f"{tags[-1]} is not listed with status 'known' for {self.pid} in known_findings.json (fixed entries suppress nothing)"}
+                if replay is not None:
+                    r["input"] = replay
+                self.violation(r, no_input=replay is None)
+            return
         line = f"KNOWN-FINDING: property={self.pid} {what}"
         if what not in self.cov["known_findings_observed"]:
             self.cov["known_findings_observed"].append(what)
